@@ -287,7 +287,7 @@ Proof.
   unfold head_part, tail_atoms, opt_atoms, opt_part;
   destruct (t_nid f), (t_nonce f), (t_value f), (t_dataType f); cbn [option_map];
     norm_str; unfold c_dot; cbn [app bjoin flat_map]; rewrite <- ?app_assoc; cbn [app];
-    rewrite <- ?app_assoc; reflexivity.
+    rewrite <- ?app_assoc; rewrite ?app_nil_r; reflexivity.
 Qed.
 
 Lemma dotfree_fmt_z z : dotfree (fmt_z z) = true.
@@ -401,9 +401,17 @@ Proof.
            (t_value f1) as [v1|], (t_value f2) as [v2|];
     cbn [option_map app] in E;
     repeat match type of E with
+           | context [fmt_z ?z] => let x := fresh "fz" in remember (fmt_z z) as x
+           | context [to_string ?a] => let x := fresh "ts" in remember (to_string a) as x
+           end;
+    repeat match type of E with
            | _ :: _ = _ :: _ => let Hh := fresh "Hh" in injection E as Hh E
            end;
     try discriminate E;
+    repeat match goal with
+           | Hq : ?x = fmt_z _ |- _ => subst x
+           | Hq : ?x = to_string _ |- _ => subst x
+           end;
     try (exfalso;
          match goal with
          | Hh : str ?a = str ?b |- _ => norm_str_in Hh; discriminate Hh
@@ -446,10 +454,10 @@ Proof.
       + norm_str_in Er. discriminate Er.
     - destruct K1 as [-> N1]. subst dp2. cbn [app] in EH. exfalso.
       destruct (t_dataType f2); norm_str_in EH; cbn [app] in EH; [|discriminate EH].
-      rewrite <- app_assoc in EH. cbn [app] in EH. discriminate EH.
+      rewrite <- ?app_assoc in EH. cbn [app] in EH. discriminate EH.
     - destruct K2 as [-> N2]. subst dp1. cbn [app] in EH. exfalso.
       destruct (t_dataType f1); norm_str_in EH; cbn [app] in EH; [|discriminate EH].
-      rewrite <- app_assoc in EH. cbn [app] in EH. discriminate EH.
+      rewrite <- ?app_assoc in EH. cbn [app] in EH. discriminate EH.
     - subst dp1 dp2. cbn [app] in EH. split; [|reflexivity].
       destruct (t_dataType f1), (t_dataType f2); try reflexivity.
       + apply app_inv_head in EH. now subst.
@@ -457,3 +465,95 @@ Proof.
       + norm_str_in EH. discriminate EH. }
   destruct Hfin as [F1 F2]. constructor; assumption.
 Qed.
+
+(* ------------------------------------------------------------------ *)
+(* converse, and the statement on ids                                   *)
+(* ------------------------------------------------------------------ *)
+
+Definition struct_rest (f : txdata) (dp : bytes) : bytes :=
+  str "icx_sendTransaction" ++ dp
+  ++ opt_part (str ".dataType.") (t_dataType f)
+  ++ str ".from." ++ to_string (t_from f)
+  ++ opt_part (str ".nid.") (option_map fmt_z (t_nid f))
+  ++ opt_part (str ".nonce.") (option_map fmt_z (t_nonce f))
+  ++ str ".stepLimit." ++ fmt_z (t_stepLimit f)
+  ++ str ".timestamp." ++ fmt_z (t_timestamp f)
+  ++ str ".to." ++ to_string (t_to f)
+  ++ opt_part (str ".value.") (option_map fmt_z (t_value f))
+  ++ str ".version." ++ fmt_z (Z.of_N (t_version f)).
+
+Lemma pre_struct_alt f :
+  pre_struct f = match data_part (t_data f) with Some dp => Some (struct_rest f dp) | None => None end.
+Proof.
+  unfold pre_struct, data_part, struct_rest. destruct (t_data f) as [| | |j]; try reflexivity.
+  all: destruct (ser_value j); reflexivity.
+Qed.
+
+Lemma data_key_part d1 d2 : data_icon d1 = true -> data_icon d2 = true ->
+  data_key d1 = data_key d2 -> data_part d1 = data_part d2.
+Proof.
+  destruct d1 as [| | |j1], d2 as [| | |j2]; cbn [data_icon data_key data_part]; intros I1 I2 E;
+    try discriminate; try reflexivity.
+  - inversion E as [En]. rewrite (ser_value_tokens j2 I2), <- En. cbn [tser map unlex flat_map]. now rewrite app_nil_r.
+  - inversion E as [En]. rewrite (ser_value_tokens j1 I1), En. cbn [tser map unlex flat_map]. now rewrite app_nil_r.
+  - inversion E as [En]. now rewrite (ser_value_norm_eq j1 j2 I1 I2 En).
+Qed.
+
+Theorem same_signed_same_pre f1 f2 : data_icon (t_data f1) = true -> data_icon (t_data f2) = true ->
+  same_signed f1 f2 -> pre_struct f1 = pre_struct f2.
+Proof.
+  intros I1 I2 [E1 E2 E3 E4 E5 E6 E7 E8 E9 E10]. rewrite !pre_struct_alt.
+  rewrite (data_key_part _ _ I1 I2 E10). unfold struct_rest.
+  now rewrite E1, E2, E3, E4, E5, E6, E7, E8, E9.
+Qed.
+
+Section StructId.
+  Variable H : bytes -> bytes.
+
+  (* two transactions on the struct path with one id have the same signed
+     content, or a collision of H is exhibited *)
+  Theorem struct_same_id f1 f2 p1 p2 :
+    addr_ok (t_from f1) = true -> addr_ok (t_from f2) = true ->
+    addr_ok (t_to f1) = true -> addr_ok (t_to f2) = true ->
+    data_icon (t_data f1) = true -> data_icon (t_data f2) = true ->
+    pre_struct f1 = Some p1 -> pre_struct f2 = Some p2 ->
+    id_struct H f1 = id_struct H f2 -> same_signed f1 f2 \/ collision H.
+  Proof.
+    intros A1 A2 B1 B2 I1 I2 P1 P2 E. unfold id_struct in E. rewrite P1, P2 in E.
+    destruct (list_eq_dec N.eq_dec p1 p2) as [Ep|Np].
+    - left. subst p2. eapply pre_struct_inj; eauto.
+    - right. exists p1, p2. auto.
+  Qed.
+End StructId.
+
+(* The two hash paths are not injective together: the struct path writes
+   dataType without escaping, the JSON-map path escapes it and admits unknown
+   keys.  A binary transaction and a JSON transaction with different content and
+   the same pre-image (finding F2 of docs/notes/C12.md): *)
+Definition ex_f_struct : txdata :=
+  {| t_version := 3; t_from := zero_addr; t_to := zero_addr; t_value := None; t_stepLimit := 1%Z;
+     t_timestamp := 1%Z; t_nid := None; t_nonce := None; t_sig := SigNone;
+     t_dataType := Some (str "message.extra.b"); t_data := DNone |}.
+Definition ex_m_json : list (bytes * json) :=
+  [(str "version", JStr (str "0x3")); (str "from", JStr (to_string zero_addr)); (str "to", JStr (to_string zero_addr));
+   (str "stepLimit", JStr (str "0x1")); (str "timestamp", JStr (str "0x1"));
+   (str "dataType", JStr (str "message")); (str "extra", JStr (str "b"))].
+Example cross_path_collision :
+  pre_struct ex_f_struct = pre_map ex_m_json
+  /\ t_dataType ex_f_struct <> Some (str "message").
+Proof. split; [vm_compute; reflexivity|vm_compute; discriminate]. Qed.
+
+(* non-vacuity of pre_struct_inj / same_signed: two field records that differ
+   only in the spelling of the data (key order, a dropped leading "") *)
+Example ex_same_signed :
+  let f1 := {| t_version := 3; t_from := zero_addr; t_to := zero_addr; t_value := Some 5%Z; t_stepLimit := 1%Z;
+               t_timestamp := 1%Z; t_nid := Some 1%Z; t_nonce := None; t_sig := SigNone;
+               t_dataType := Some (str "message");
+               t_data := DTree (JObj [(str "b", JList [JStr []; JStr (str "x.y")]); (str "a", JNull)]) |} in
+  let f2 := {| t_version := 3; t_from := zero_addr; t_to := zero_addr; t_value := Some 5%Z; t_stepLimit := 1%Z;
+               t_timestamp := 1%Z; t_nid := Some 1%Z; t_nonce := None; t_sig := SigNone;
+               t_dataType := Some (str "message");
+               t_data := DTree (JObj [(str "a", JNull); (str "b", JList [JStr (str "x.y")])]) |} in
+  pre_struct f1 = pre_struct f2 /\ pre_struct f1 <> None /\ t_data f1 <> t_data f2
+  /\ addr_ok (t_from f1) = true /\ data_icon (t_data f1) = true.
+Proof. cbv zeta. split; [vm_compute; reflexivity|]. split; [vm_compute; discriminate|]. split; [discriminate|]. split; reflexivity. Qed.
